@@ -48,6 +48,21 @@ class SpiStub:
     def __exit__(self, *exc):
         return False
 
+    # busio.SPI protocol used by the real adafruit_bus_device.SPIDevice when a constructor is run
+    # NATIVELY (replay / differential); the engine models SPIDevice(spi, ...) as `spi` itself
+    def try_lock(self):
+        return True
+
+    def unlock(self):
+        return None
+
+    def configure(self, baudrate=0, polarity=0, phase=0, bits=8):
+        return None
+
+    def write(self, buf, start=0, end=None):
+        """SPIDevice's extra clocks after CSN went high: ignored by the radio (A-HW)"""
+        return None
+
     def write_readinto(self, out_buf, in_buf, out_start=0, out_end=None, in_start=0, in_end=None):
         n = out_end if out_end is not None else len(out_buf)
         m = in_end if in_end is not None else len(in_buf)
